@@ -68,6 +68,19 @@ CHECKS = {
              'statistics (with and without zero) must agree with evaluate_model.',
         note='Cross-entropy metrics only relationally (tolerance classes); banks of <= 4 examples, <= 3 batches of <= 3 rows.',
         design='5/C05'),
+    'C06': dict(
+        technique='TLA+ spec MaskedLoss.tla (exact rationals; layouts of padded batches built step by step) model-checked '
+                  'by TLC against batch-free definitions; emitted layouts replayed into fedjax.grad / model_grad, '
+                  'evaluate_average_loss, AverageLossEvaluator, mime and agnostic for_each_client helpers; geometry '
+                  'independence of algorithm-derived quantities as PureHistory facts judged by TLC',
+        text='TLC proves for every dataset of the bank, parameter, regulariser weight and every layout (order, cuts, masked '
+             'rows anywhere with arbitrary content, fully padded batches) that per-batch gradient, average loss, '
+             'full-batch gradient and per-domain sums equal their batch-free definitions with the regulariser once '
+             '(three deviations reported); the layouts are executed on seven real entry points and compared with the '
+             'TLC rationals; agnostic FedAvg domain weights (with and without regulariser), HypCluster assignment and '
+             'Mime/MimeLite rounds must not depend on padded batch size / buckets.',
+        note='Exact island: scalar parameter, quadratic loss, L2 regulariser with dyadic weight.',
+        design='5/C06'),
     'C07': dict(
         technique='TLA+ specs Aggregation.tla (one-pass fold, donated accumulator, buffer table) and Clip.tla (exact '
                   'rational clipping) model-checked by TLC; emitted cases replayed into tree_sum/tree_mean/'
